@@ -104,7 +104,8 @@ def c_outcome(out, cause_tag):
 
 
 def c_desc(case):
-    return '(mkDesc %s %s)' % (lib.clist('%d%%nat' % i for i in case['check']), lib.clist('%d%%nat' % i for i in case['endo']))
+    return '(mkDesc %s %s %d%%nat %d%%nat)' % (lib.clist('%d%%nat' % i for i in case['check']), lib.clist('%d%%nat' % i for i in case['endo']),
+                                             case.get('lags', 0), case.get('leads', 0))
 
 
 PREAMBLE = '''From Coq Require Import PrimFloat ZArith List Bool.
